@@ -468,18 +468,16 @@ func clip(s string, a, b int) string {
 func runSentinel(name string) (fails []fail, obs string) {
 	add := func(what string) { fails = append(fails, fail{"unwrap/" + name, what}) }
 	type sc struct {
-		src    string
-		allocs int64
-		is     error
-		funcs  map[string]tengo.Object
+		src      string
+		allocs   int64
+		is       error
+		funcs    map[string]tengo.Object
+		maxStr   int // tengo.MaxStringLen for this case (sentinel cases run sequentially)
+		maxBytes int
 	}
 	typed := &hostErrT{code: 7}
 	cases := map[string]sc{
-		"index-out-of-bounds": {src: "a := [1]; a[3] = 1", is: tengo.ErrIndexOutOfBounds},
-		"stack-overflow":      {src: "f := func() { return f() + 1 }; f()", is: tengo.ErrStackOverflow},
-		"alloc-limit":         {src: "a := 0; for i := 0; i < 100; i++ { a = [i] }", allocs: 5, is: tengo.ErrObjectAllocLimit},
-		"bytes-limit":         {src: "a := bytes(2147483648)", is: tengo.ErrBytesLimit},
-		"wrong-num-args-fn":   {src: "f := func(a) { return a }; f()", is: nil},
+		"wrong-num-args-fn": {src: "f := func(a) { return a }; f()", is: nil},
 		"host-error": {src: "x := hf(1)", is: hostErr, funcs: map[string]tengo.Object{"hf": &tengo.UserFunction{Name: "hf",
 			Value: func(args ...tengo.Object) (tengo.Object, error) { return nil, hostErr }}}},
 		"host-error-nested": {src: "g := func() { return hf(1) + 1 }; x := g()", is: hostErr, funcs: map[string]tengo.Object{"hf": &tengo.UserFunction{Name: "hf",
@@ -487,9 +485,43 @@ func runSentinel(name string) (fails []fail, obs string) {
 		"host-error-typed": {src: "x := hf(1)", is: typed, funcs: map[string]tengo.Object{"hf": &tengo.UserFunction{Name: "hf",
 			Value: func(args ...tengo.Object) (tengo.Object, error) { return nil, typed }}}},
 	}
+	// the engine's sentinel errors: every kind raised at every site
+	kinds := map[string]sc{
+		"index-out-of-bounds":        {src: "a := [1]; a[3] = 1", is: tengo.ErrIndexOutOfBounds},
+		"index-out-of-bounds-splice": {src: "a := splice([1], 5)", is: tengo.ErrIndexOutOfBounds},
+		"stack-overflow":             {src: "rec := func() { return rec() + 1 }; rec()", is: tengo.ErrStackOverflow},
+		"alloc-limit":                {src: "a := 0; for i := 0; i < 100; i++ { a = [i] }", allocs: 5, is: tengo.ErrObjectAllocLimit},
+		"bytes-limit":                {src: "a := bytes(2147483648)", is: tengo.ErrBytesLimit},
+		"string-limit":               {src: "a := \"aaaa\" + \"bbbbb\"", is: tengo.ErrStringLimit, maxStr: 8},
+		"string-limit-format":        {src: "a := format(\"%s%s\", \"aaaa\", \"bbbbb\")", is: tengo.ErrStringLimit, maxStr: 8},
+		"bytes-limit-plus":           {src: "a := bytes(\"aaaa\") + bytes(\"bbbbb\")", is: tengo.ErrBytesLimit, maxBytes: 8},
+	}
+	sites := map[string]string{
+		"top":        "%s",
+		"in-func":    "f := func() { %s }; f()",
+		"in-closure": "mk := func() { k := 1; return func() { %s; return k } }; mk()()",
+		"in-loop":    "for once := true; once; once = false { %s }",
+	}
+	for kn, k := range kinds {
+		for sn, tmpl := range sites {
+			c := k
+			c.src = fmt.Sprintf(tmpl, k.src)
+			cases[kn+"@"+sn] = c
+		}
+	}
 	c, ok := cases[name]
 	if !ok {
 		return []fail{{"internal/unknown-sentinel", name}}, ""
+	}
+	if c.maxStr > 0 {
+		old := tengo.MaxStringLen
+		tengo.MaxStringLen = c.maxStr
+		defer func() { tengo.MaxStringLen = old }()
+	}
+	if c.maxBytes > 0 {
+		old := tengo.MaxBytesLen
+		tengo.MaxBytesLen = c.maxBytes
+		defer func() { tengo.MaxBytesLen = old }()
 	}
 	s := tengo.NewScript([]byte(c.src))
 	for k, v := range c.funcs {
@@ -537,7 +569,15 @@ func runSentinel(name string) (fails []fail, obs string) {
 	return fails, "checked"
 }
 
-var sentinels = []string{"index-out-of-bounds", "stack-overflow", "alloc-limit", "bytes-limit", "wrong-num-args-fn", "host-error", "host-error-nested", "host-error-typed"}
+var sentinels = func() []string {
+	out := []string{"wrong-num-args-fn", "host-error", "host-error-nested", "host-error-typed"}
+	for _, k := range []string{"index-out-of-bounds", "index-out-of-bounds-splice", "stack-overflow", "alloc-limit", "bytes-limit", "string-limit", "string-limit-format", "bytes-limit-plus"} {
+		for _, s := range []string{"top", "in-func", "in-closure", "in-loop"} {
+			out = append(out, k+"@"+s)
+		}
+	}
+	return out
+}()
 
 func main() {
 	if p := report.ReplayArg(); p != "" {
